@@ -470,7 +470,12 @@ func (fg *FunctionGenerator) GenerateCustom(ast parser2.AST, gc funcGen.Generato
 						}
 					}
 				} else {
-					return nil, fmt.Errorf("not a bool: %s", TypeName(aVal))
+					// no short evaluation possible, use the operator table like the optimizer does
+					bVal, err := bFunc(st, cs)
+					if err != nil {
+						return nil, err
+					}
+					return g.GetOpImpl("&").Calc(st, aVal, bVal)
 				}
 			}, aPure && bPure, nil
 		case "|":
@@ -502,7 +507,12 @@ func (fg *FunctionGenerator) GenerateCustom(ast parser2.AST, gc funcGen.Generato
 						}
 					}
 				} else {
-					return nil, fmt.Errorf("not a bool: %s", TypeName(aVal))
+					// no short evaluation possible, use the operator table like the optimizer does
+					bVal, err := bFunc(st, cs)
+					if err != nil {
+						return nil, err
+					}
+					return g.GetOpImpl("|").Calc(st, aVal, bVal)
 				}
 			}, aPure && bPure, nil
 		}
